@@ -62,6 +62,11 @@ func (p *Parser) nextToken() error {
 
 	token, err := p.lexer.NextToken()
 	if err != nil {
+		// Most callers advance without looking at the result. Leaving the old
+		// lookahead in place would make them see the same token for ever (an
+		// endless loop in parseArray/parseDict, or endless recursion); an EOF
+		// token makes every parse loop stop with an error instead.
+		p.peekToken = &Token{Type: TokenEOF}
 		return err
 	}
 	p.peekToken = token
@@ -298,6 +303,9 @@ func (p *Parser) ParseIndirectObject() (*IndirectObject, error) {
 	}
 
 	// Parse object number
+	if p.currentToken == nil {
+		return nil, fmt.Errorf("unexpected end of input")
+	}
 	if p.currentToken.Type != TokenInteger {
 		return nil, fmt.Errorf("expected object number, got %v", p.currentToken.Type)
 	}
